@@ -38,14 +38,14 @@ type Violation struct {
 
 // Outcome is what one execution of one script observed.
 type Outcome struct {
-	FP          Fingerprint      `json:"-"`
-	Violations  []Violation      `json:"violations,omitempty"`
-	Faults      map[string]int64 `json:"faults,omitempty"`
-	Probes      map[string]int64 `json:"probes,omitempty"`
-	SimSeconds  float64          `json:"sim_seconds,omitempty"`
-	NonTrivial  bool             `json:"non_trivial"`
-	Panics      int              `json:"panics,omitempty"`
-	PanicSample string           `json:"panic_sample,omitempty"`
+	FP          Fingerprint       `json:"-"`
+	Violations  []Violation       `json:"violations,omitempty"`
+	Faults      map[string]int64  `json:"faults,omitempty"`
+	Probes      map[string]int64  `json:"probes,omitempty"`
+	SimSeconds  float64           `json:"sim_seconds,omitempty"`
+	NonTrivial  bool              `json:"non_trivial"`
+	Panics      int               `json:"panics,omitempty"`
+	PanicSample string            `json:"panic_sample,omitempty"`
 	Notes       map[string]string `json:"-"`
 	// Tags name situations the run reached ("kind:detail"); the driver counts
 	// the distinct tags per kind over the whole batch (interleavings, (entry
@@ -68,8 +68,8 @@ func NewOutcome() *Outcome {
 func (o *Outcome) Violate(class, format string, a ...any) {
 	o.Violations = append(o.Violations, Violation{Class: class, Detail: fmt.Sprintf(format, a...)})
 }
-func (o *Outcome) Fault(kind string)       { o.Faults[kind]++; o.NonTrivial = true }
-func (o *Outcome) Probe(name string)       { o.Probes[name]++ }
+func (o *Outcome) Fault(kind string)           { o.Faults[kind]++; o.NonTrivial = true }
+func (o *Outcome) Probe(name string)           { o.Probes[name]++ }
 func (o *Outcome) ProbeN(name string, n int64) { o.Probes[name] += n }
 
 // Guard runs f and converts a panic in library code into a counted event.
